@@ -161,7 +161,7 @@ fn gen_keyfile(rng: &mut Rng) -> (Vec<u8>, &'static str) {
             _ => "\r\n\t".to_string(),
         }
     };
-    match rng.below(19) {
+    match rng.below(21) {
         0 => (rng.bytes(32), "raw32"),
         1 => {
             let n = *rng.pick(&[0usize, 1, 31, 33, 64, 200, 65_537, 70_000, 200_000]);
@@ -227,6 +227,24 @@ fn gen_keyfile(rng: &mut Rng) -> (Vec<u8>, &'static str) {
             let mut v = vec![0xEF, 0xBB, 0xBF];
             v.extend_from_slice(body.as_bytes());
             (v, "xml-with-bom")
+        }
+        19 | 20 => {
+            // a genuine key file of either version that is damaged behind its payload (cut off, a stray byte after the end, written
+            // twice in a row): not a well-formed document, so an opaque file, every byte of which counts
+            let k = rng.bytes(32);
+            let body = if rng.chance(1, 2) {
+                format!("<?xml version=\"1.0\" encoding=\"utf-8\"?><KeyFile><Meta><Version>1.00</Version></Meta><Key><Data>{}</Data></Key></KeyFile>", b64(&k))
+            } else {
+                format!("<KeyFile><Meta><Version>2.0</Version></Meta><Key><Data>{}</Data></Key></KeyFile>", hex::encode_upper(&k))
+            };
+            let t = match rng.below(5) {
+                0 => body.trim_end_matches("</KeyFile>").to_string(),
+                1 => format!("{}\0", body),
+                2 => format!("{}{}", body, body),
+                3 => body.replacen("</Key></KeyFile>", "</Key><</KeyFile>", 1),
+                _ => body.replacen("</Key></KeyFile>", "</Key></Keyfile>", 1),
+            };
+            (t.into_bytes(), "xml-damaged-after-payload")
         }
         17 => {
             // version 2 with Key before Meta
